@@ -244,6 +244,21 @@ def shard_fn(shard, nshards, seed, tier, exe, ntrees):
             out.append(c)
         final.append((cid, out))
     results, crashes = core.run_script(exe, final, tag="c12", env=core.ambient_env(sh, shard))
+
+    if shard == 0:
+        # the whole-document forms on a document that does not exist yet: json_pointer_set(&doc, "", v) / json_pointer_setf(&doc, v, "%s", "") with doc == NULL
+        # install v (both variants alike), and lookups in a NULL document fail cleanly
+        nr = [("nullroot.%s" % c, ["NEW 0 - null", "NEW 5 77 int 4", "%s 0 x 5" % c, "D 0", "PGET 0 x 0", "PGET 0 x2f61 0", "PUT 0"]) for c in ("PSET", "PSETF")]
+        r2, c2 = core.run_script(exe, nr, tag="c12n")
+        for cr in c2:
+            sh.violation("C12/%s/%s/null-document" % cr.summary(), "crash setting the whole-document pointer on a NULL document", {"driver": "jcdrv", "variant": "asan", "script": dict(nr)[cr.cid], "stderr": cr.stderr[-2000:]})
+        outs = {}
+        for cid, lines in r2.items():
+            sh.evaluations += 4
+            outs[cid] = lines[2:7]
+            if lines[2].split()[1] != "0" or " i4" not in lines[3] or lines[4].split()[1] != "0" or lines[5].split()[1] == "0" or "del=77" not in lines[6]:
+                sh.violation("C12/whole-document-set-on-null-document/" + cid.split(".")[1], "setting \"\" on a NULL document: %s" % lines[2:7], {"driver": "jcdrv", "variant": "asan", "script": dict(nr)[cid]})
+        sh.count("whole_document_sets_on_a_NULL_document", len(r2))
     crashes += [c for c in cr1 if c.cid not in {x.cid for x in crashes}]
     cmdmap = dict(final)
     cmdmap.update({cid: cm for cid, cm in pass1 if cid not in cmdmap})
